@@ -14,6 +14,7 @@ func Register(s Suites) {
 	s.Add("C03", runC03)
 	s.Add("C07", runC07)
 	s.Add("C14", runC14)
+	s.Add("C08", runC08)
 }
 
 // ---------- implementation runners (canonical, API-visible observables only) ----------
